@@ -127,6 +127,12 @@ func messageOf(c *gen.Concrete, origin string) *pb.QuoteV4 {
 		m := MsgFromQuote(c.Q)
 		withSpare(m)
 		return m
+	case "sparse": // built field by field by a caller who leaves the size scalars at zero (verification and validation never read them)
+		m := MsgFromQuote(c.Q)
+		m.SignedDataSize = 0
+		m.SignedData.CertificationData.Size = 0 // (the nested sizes are checked against their data by CheckQuoteV4 and stay)
+		withSpare(m)
+		return m
 	case "protobuf":
 		b, err := proto.Marshal(MsgFromQuote(c.Q))
 		if err != nil {
@@ -192,8 +198,13 @@ func RunFootprintCase(cs map[string]any, id int, seed int64) Result {
 		walkBytes("msg", reflect.ValueOf(m), &cells)
 		cells = append(cells, snapshotBytes("raw", raw))
 		walkBytes("opts", reflect.ValueOf(vopts), &cells)
+		whole := proto.Clone(m)
 		out := runKind(kind, c, m, raw, vopts, level)
-		evs = append(evs, Event{"ev": "Footprint", "kind": kind, "origin": origin, "level": level, "mutated": diffCells(cells), "cells": len(cells), "verdict": out.Verdict()})
+		mutated := diffCells(cells)
+		if !proto.Equal(whole, m) && len(mutated) == 0 { // a scalar or a message field changed although no byte cell did
+			mutated = append(mutated, "scalar")
+		}
+		evs = append(evs, Event{"ev": "Footprint", "kind": kind, "origin": origin, "level": level, "mutated": mutated, "cells": len(cells), "verdict": out.Verdict()})
 		if out.Panic != "" || out.Timeout {
 			evs = append(evs, Event{"ev": "Return", "result": out.Verdict(), "err": out.ErrText()})
 			return Result{ID: id, Events: evs}
@@ -228,7 +239,7 @@ func RunRaceCase(cs map[string]any, id int, seed int64, iters int) Result {
 	for _, k := range cs["kinds"].([]any) {
 		kinds = append(kinds, k.(string))
 	}
-	origin := []string{"parsed", "built", "protobuf"}[id%3]
+	origin := []string{"parsed", "built", "protobuf", "sparse"}[id%4]
 	c := gen.Build(gen.World{"extra": "some", "modBranch": "modOk"}, gen.Params{Seed: rng.Int63()})
 	m := messageOf(c, origin)
 	raw := append([]byte{}, c.Raw...)
